@@ -67,6 +67,7 @@ def file_bytes(ext, payload, with_chart, key_only=False, unique=False, variant=N
     variant: None | 'unterminated' (the last parameter has neither ';' nor a line break behind it)
                   | 'crlf' (CRLF line ends, also inside a multi-line value)
                   | 'empty' | 'commentonly' | 'chartsonly' (files without any header property)
+                  | 'longlist' (one-line lists of up to 90 entries)
     """
     if variant == "empty":
         return b""
@@ -89,6 +90,9 @@ def file_bytes(ext, payload, with_chart, key_only=False, unique=False, variant=N
             body += b"#NOTEDATA:;\n#STEPSTYPE:dance-single;\n#DESCRIPTION:" + payload + b";\n#NOTES:\n0000\n1{2x\\:4}00\n;\n"
         else:
             body += b"#NOTES:\n     dance-single:\n     " + payload + b":\n     Easy:\n     1:\n     0,0:\n0000\n1{2x\\:4}00\n;\n"
+    if variant == "longlist":
+        # one-line lists of 7, 11 and 90 entries (about 90, 150 and 1200 characters)
+        body += b"#BPMS:" + X.comma_list(7).encode() + b";\n#STOPS:" + X.comma_list(11).encode() + b";\n#BGCHANGES:" + X.comma_list(90).encode() + b";\n"
     if variant == "unterminated":
         body += b"#CREDIT:last value without semicolon"
     data = head + body
